@@ -390,3 +390,20 @@ mod tests {
         Ok(())
     }
 }
+
+#[cfg(noodles_verif)]
+#[doc(hidden)]
+pub mod verif_hooks {
+    //! Re-exports for verification harnesses (`--cfg noodles_verif`).
+    use super::*;
+
+    /// `reg2bin`.
+    pub fn reg2bin(start: Position, end: Position, min_shift: u8, depth: u8) -> usize {
+        super::reg2bin(start, end, min_shift, depth)
+    }
+
+    /// `reg2bins`.
+    pub fn reg2bins(start: Position, end: Position, min_shift: u8, depth: u8, bins: &mut BitVec) {
+        super::reg2bins(start, end, min_shift, depth, bins)
+    }
+}
